@@ -56,6 +56,10 @@ def handle (ws : List String) : String :=
       (match parseFloat? rho, frs.mapM parseFloat? with
        | some r, some fs => "ok " ++ " ".intercalate ((rescaleFractions fs r).map fun v => toString v.toBits)
        | _, _ => "err bad-number")
+  | ["latmodel", hx] =>
+      match unhex hx >>= Sexp.parse with
+      | some s => runLattice s
+      | none => "err bad-sexp"
   | ["inline", hx] =>
       match unhex hx >>= Sexp.parse with
       | some s => runInline s
